@@ -63,7 +63,8 @@ Record ctx_table := {
                                                     trait default), resolved to the names *)
   ct_memo_cmp : Z;                               (* the comparison inside default_memoize_register's `position` closure:
                                                     0 = `*val == reg` (exact), 1 = eq_ignore_ascii_case *)
-  ct_groups : list (list name * list name);  (* register_is_valid, Some(which): patterns => which.contains(a) || ...; `_ => which.contains(reg)` *)
+  ct_groups : list (list name * bexp);       (* register_is_valid, Some(which): patterns => a condition over the set: [BVar ("$has:" ++ a)] =
+                                                    `which.contains("a")`, [BVar v_contains] = `which.contains(reg)`; `_ => <ct_valid_default>` *)
   (* the conditions of the validity test and of the checked read, as expressions over the calls they make:
      [BVar v_memo] = `self.memoize_register(reg).is_some()`, [BVar v_contains] = `which.contains(reg)`,
      [BVar v_iv] = `self.register_is_valid(reg, valid)` *)
@@ -108,6 +109,7 @@ Record ctx_table := {
 Record read_arm := mk_read_arm {
   ra_archs : list Z; ra_type : name; ra_variant : name; ra_flag_name : name; ra_flag : Z; ra_size : Z }.
 
+Definition has_prefix : name := [36; 104; 97; 115; 58].   (* "$has:" *)
 Definition v_val : name := [118; 97; 108]. (* "val" *)
 Definition v_memo : name := [36; 109; 101; 109; 111].                    (* "$memo" *)
 Definition v_contains : name := [36; 99; 111; 110; 116; 97; 105; 110; 115]. (* "$contains" *)
